@@ -10,7 +10,10 @@ correspondence : the seven recurrence solvers (cg, cr, cgne, cgnr, bicgstab, ste
                  gmres_mgs / gmres_householder / fgmres / gmres as complete runs vs the Lean models of
                  Model/ExtC06Gmres.lean executed in binary64 (op ext_c06_gmres, real case): status, every
                  entry of `residuals`, every callback iterate, x (tolerance 1e-8 relative; runs in which a
-                 decision falls within 1e-6 of its threshold or at rounding level are skipped and counted).
+                 decision falls within 1e-6 of its threshold or at rounding level are skipped and counted);
+                 (extension E43) the same complete-run comparison on COMPLEX systems vs the pair models of
+                 Model/ExtCGGmres.lean (op ext_cg_full: conjugated inner products, zlartg rotations, complex _mysign,
+                 np.abs of the Givens estimate) executed on pairs of binary64 numbers, same tolerances.
 search         : all eleven public solvers on real/complex well-conditioned systems n = 1..12 as dense
                  array / CSR / CSC / BSR / LinearOperator, with and without HPD preconditioner, every
                  documented criterion, x0 in {none, zero, random, large, exact, near-exact}, zero b,
@@ -53,10 +56,11 @@ META = {
     'search_only': [
         'x finite for finite nonsingular input (floating point, outside the exact-field models)',
         'A, b, x0, M not modified (byte comparison before/after; arrays behind sparse matrices and LinearOperators included)',
-        'GMRES family in complex arithmetic and with reorth=True, the stagnation exit (an abstract predicate in the models), '
-        'callback iterate k equals the x returned with maxiter = k: dense oracle, tolerance (the real-arithmetic runs are '
-        'modelled completely in Lean and proved truthful for an exact square root: gmres_mgs_truthful, '
-        'gmres_householder_truthful, fgmres_truthful and their _vec_ forms)',
+        'GMRES family with reorth=True, the stagnation exit (an abstract predicate in the models), '
+        'callback iterate k equals the x returned with maxiter = k: dense oracle, tolerance (the real- and, since extension '
+        'E43, the complex-arithmetic runs are modelled completely in Lean and proved truthful for an exact square root: '
+        'gmres_mgs_truthful, gmres_householder_truthful, fgmres_truthful, their _vec_ forms, and complex_gmres_mgs_truthful, '
+        'complex_gmres_householder_truthful, complex_fgmres_truthful with their _vec_ / _pairs_ forms)',
         'the n == 1 shortcuts of bicgstab and the GMRES family (known findings) are outside the solver theorems',
         'LinearOperator / sparse-format / column-vector handling of make_system; results independent of whether '
         'residuals / callback are passed',
@@ -67,7 +71,14 @@ META = {
         'gmres_mgs_truthful / gmres_householder_truthful / fgmres_truthful (extension E16): all C06 clauses for the complete '
         'executable models, including "the recorded Givens estimate |g[inner+1]| is the residual norm of the iterate handed '
         'to the callback" (Arnoldi/Givens invariant, no breakdown hypothesis), in exact arithmetic with an exact square '
-        'root, real scalars, threshold tol*||Mb|| > 0; binary64 and complex runs are compared / searched, not proved',
+        'root, real scalars, threshold tol*||Mb|| > 0; binary64 runs are compared / searched, not proved',
+        'complex_gmres_mgs_truthful / complex_gmres_householder_truthful / complex_fgmres_truthful (extension E43): the same '
+        'for the complex models (pairs (re, im) over an ordered field with an exact square root, or any field with an '
+        'involution and an exact square root of its non-negative reals): the recorded estimate |g[inner+1]| (np.abs) is the '
+        '2-norm of the (preconditioned) residual of the callback iterate, by the rotated-basis invariant of the complex '
+        'Givens rotations (zlartg contract proved for the formula of the model: c real, c^2+|s|^2 = 1, second entry zeroed), '
+        'conjugated MGS / complex Householder reflections with _mysign; no breakdown hypothesis (a recorded estimate is '
+        '>= threshold > 0); binary64 pair runs are compared with the code, not proved',
         'cgnr_truthful is stated for the criterion the code tests (M A^H r for MrMr / rMr), see known finding '
         'cgnr-normal-residual-criterion',
     ],
@@ -78,7 +89,9 @@ META = {
         'recursively updated residuals; history entries with 1e-6 relative + 1e-11 absolute (scaled)',
         'the preconditioner is Hermitian positive definite, the systems are well conditioned (condition number <= ~100)',
         'complete GMRES models (ext_c06_gmres) are executed in binary64 like the code: agreement to 1e-8 relative (x, callback '
-        'iterates) resp. 1e-8*(entry + initial residual) + 1e-11*scale (history); the stagnation test is evaluated on x_new - x_old',
+        'iterates) resp. 1e-8*(entry + initial residual) + 1e-11*scale (history); the stagnation test is evaluated on x_new - x_old; '
+        'the complex pair models (ext_cg_full) likewise, with complex division a*conj(b)/|b|^2 and |z| = sqrt(re^2+im^2) where '
+        'NumPy/LAPACK use scaled variants (differences at rounding level, inside the same tolerances)',
     ],
 }
 
@@ -750,15 +763,30 @@ def _unbits(tok):
     return np.array([struct.unpack('<d', struct.pack('<Q', int(t)))[0] for t in tok.split(',')])
 
 
-def gmres_full_part(ctx, count, nmax=8):
+def _cbits(v):
+    """complex vector as interleaved re, im bit patterns (op ext_cg_full)"""
+    v = np.asarray(v, dtype=complex).ravel()
+    return ','.join(f'{float_bits(z.real)},{float_bits(z.imag)}' for z in v)
+
+
+def _uncbits(tok):
+    f = _unbits(tok)
+    return f[0::2] + 1j * f[1::2]
+
+
+def gmres_full_part(ctx, count, nmax=8, cplx=False):
     """GMRES family, complete runs (extension E16): status, iteration count, every entry of `residuals`, every callback
-    iterate and the returned x vs the Lean models of Model/ExtC06Gmres.lean run in binary64 (op ext_c06_gmres); real case"""
+    iterate and the returned x vs the Lean models of Model/ExtC06Gmres.lean run in binary64 (op ext_c06_gmres); real case.
+    cplx=True (extension E43): complex systems vs the pair models of Model/ExtCGGmres.lean (op ext_cg_full: zlartg
+    rotations, conjugated inner products, complex _mysign), same tolerances"""
     rng = ctx.np_rng
     kinds = {'gmres_mgs': 'mgs', 'gmres_householder': 'hh', 'fgmres': 'fg'}
+    opname = 'ext_cg_full' if cplx else 'ext_c06_gmres'
+    rp = (lambda a: np.asarray(a)) if cplx else (lambda a: np.asarray(a).real)
     items = []
     for t in range(count):
         s = GM[t % len(GM)]
-        case = make_case(rng, s, exact=False, nmax=nmax, cplx=False)
+        case = make_case(rng, s, exact=False, nmax=nmax, cplx=cplx)
         if rng.random() < 0.35:
             case['tol'] = float(rng.choice([0.5, 0.1, 1e-2, 1e-3]))      # early inner exits and several cycles
             case['default_tol'] = False
@@ -769,24 +797,29 @@ def gmres_full_part(ctx, count, nmax=8):
         Md = np.eye(o.n) if o.Md is None else o.Md
         tol = 1e-5 if case.get('default_tol') else case['tol']
         opt = lambda v: '_' if v is None else str(v)
-        line = (f'ext_c06_gmres {kind} {";".join(_fbits(r) for r in o.Ad.real)} {";".join(_fbits(r) for r in Md.real)} '
-                f'{_fbits(o.b.real)} {_fbits(x0_vec(o).real)} {float_bits(tol)} {opt(case["restart"])} {opt(case["maxiter"])}')
+        if cplx:
+            line = (f'ext_cg_full {kind} {";".join(_cbits(r) for r in o.Ad)} {";".join(_cbits(r) for r in Md)} '
+                    f'{_cbits(o.b)} {_cbits(x0_vec(o))} {float_bits(tol)} {opt(case["restart"])} {opt(case["maxiter"])}')
+        else:
+            line = (f'ext_c06_gmres {kind} {";".join(_fbits(r) for r in o.Ad.real)} {";".join(_fbits(r) for r in Md.real)} '
+                    f'{_fbits(o.b.real)} {_fbits(x0_vec(o).real)} {float_bits(tol)} {opt(case["restart"])} {opt(case["maxiter"])}')
         items.append((line, case, o, out, kind))
     replies = ctx.lean([it[0] for it in items])
     for (line, case, o, out, kind), rep in zip(items, replies):
-        ctx.feat('model:gmres-full-' + kind)
-        x, info, res, cbs = out['x'].ravel().real, int(out['info']), out['res'], [c.ravel().real for c in out['cbs']]
+        ctx.feat('model:gmres-full-' + ('complex-' if cplx else '') + kind)
+        x, info, res, cbs = rp(out["x"].ravel()), int(out['info']), out['res'], [rp(c.ravel()) for c in out["cbs"]]
         pub = {'case': case, 'line': line[:300]}
         if rep == 'short':
             if not (o.n == 1 and info == 0 and not cbs and len(res) == (2 if case['prefill'] else 0)):
-                ctx.corr('ext_c06_gmres', pub, 'n == 1 shortcut / rejected', f'status {info}, {len(res)} residuals, {len(cbs)} callbacks')
+                ctx.corr(opname, pub, 'n == 1 shortcut / rejected', f'status {info}, {len(res)} residuals, {len(cbs)} callbacks')
             continue
         p = rep.split(' ')
         if len(p) != 5:
-            ctx.corr('ext_c06_gmres', pub, rep[:200], 'unparsable reply')
+            ctx.corr(opname, pub, rep[:200], 'unparsable reply')
             continue
-        mstatus, mhist, mx = int(p[0]), _unbits(p[2]), _unbits(p[3])
-        mlog = [] if p[4] == '-' else [_unbits(v) for v in p[4].split(';')]
+        unv = _uncbits if cplx else _unbits
+        mstatus, mhist, mx = int(p[0]), _unbits(p[2]), unv(p[3])
+        mlog = [] if p[4] == '-' else [unv(v) for v in p[4].split(';')]
         impl = f'status {info}, {len(res)} residuals, {len(cbs)} callbacks, x {x[:4]}'
         model = f'status {mstatus}, {len(mhist)} residuals, {len(mlog)} callbacks, x {mx[:4]}'
         if not (mstatus == info and len(mhist) == len(res) and len(mlog) == len(cbs)):
@@ -795,21 +828,21 @@ def gmres_full_part(ctx, count, nmax=8):
             _, thr, sc = criterion(case, o, x)
             for h in list(res) + [float(v) for v in mhist]:
                 near |= (not np.isfinite(h)) or abs(h - thr) <= 1e-6 * thr + 1e-11 * sc
-            its = [x0_vec(o).real] + cbs
+            its = [rp(x0_vec(o))] + cbs
             for a, c in zip(its, its[1:]):
                 nz = c != 0
                 if nz.any() and float(np.max(np.abs((c - a)[nz] / c[nz]))) < 1e-10:
                     near = True                  # the stagnation exit (relative update below 1e-12) is in reach
-            its = [x0_vec(o).real] + mlog
+            its = [rp(x0_vec(o))] + mlog
             for a, c in zip(its, its[1:]):
                 nz = c != 0
                 if np.all(np.isfinite(c)) and nz.any() and float(np.max(np.abs((c - a)[nz] / c[nz]))) < 1e-10:
                     near = True
             if near:
                 ctx.near_skipped += 1
-                ctx.feat('gmres-full-near-skipped')
+                ctx.feat('gmres-full-near-skipped' + ('-complex' if cplx else ''))
                 continue
-            ctx.corr('ext_c06_gmres ' + kind, pub, model, impl, 'status / history length / callback count')
+            ctx.corr(opname + ' ' + kind, pub, model, impl, 'status / history length / callback count')
             continue
         sc = float(np.max(np.abs(x))) + float(np.max(np.abs(x0_vec(o)))) + 1e-300
         bad = None
@@ -824,10 +857,10 @@ def gmres_full_part(ctx, count, nmax=8):
             if bad is None and not abs(a - c) <= 1e-8 * (abs(c) + r0) + 1e-11 * hs:
                 bad = f'residual entry {k}: model {a:.10g}, code {c:.10g}'
         ctx.rel_err(float(np.max(np.abs(mx - x))) / sc)
-        ctx.feat('gmres-full-entries', len(res))
-        ctx.feat(f'gmres-full-compared:status {"0" if info == 0 else "maxiter" if info > 0 else "-1"}')
+        ctx.feat('gmres-full-entries' + ('-complex' if cplx else ''), len(res))
+        ctx.feat(f'gmres-full-compared{"-complex" if cplx else ""}:status {"0" if info == 0 else "maxiter" if info > 0 else "-1"}')
         if bad:
-            ctx.corr('ext_c06_gmres ' + kind, pub, model, impl, bad)
+            ctx.corr(opname + ' ' + kind, pub, model, impl, bad)
             # a disagreement is not yet a violation: the property oracle already judged this very run in check_case
 
 
@@ -1014,6 +1047,7 @@ def run(ctx):
     gmres_full_part(ctx, ctx.scale(300, 4000))      # last: the random stream of the parts above is the one of earlier rounds
     struct_part(ctx, ctx.scale(1100, 30000))        # wave 4 (after the older parts for the same reason)
     long_part(ctx, ctx.scale(176, 2200))
+    gmres_full_part(ctx, ctx.scale(150, 2400), cplx=True)   # extension E43: complex runs vs the pair models (ext_cg_full)
 
 
 def search(ctx):
